@@ -153,6 +153,20 @@ func c06Oracle(env *irdump.Env, d *irdump.Decl, text string) string {
 		if m := dartEnumRe.FindStringSubmatch(text); m == nil || len(list(m[1])) != n {
 			return fmt.Sprintf("the enum does not list the %d exported constants", n)
 		}
+		// the iota form converts by position (`values[i]` / `index`): the i-th listed constant has to
+		// be the one whose Go value is i, or member <-> value is not the identity on the wire
+		if strings.Contains(text, ".values[i]") {
+			i := int64(0)
+			for _, m := range d.Members {
+				if !m.Exported {
+					continue
+				}
+				if !m.IsInt || m.Int != i {
+					return fmt.Sprintf("the enum converts by position, but its constant number %d is %s = %s", i, m.Name, m.ValStr)
+				}
+				i++
+			}
+		}
 		if m := dartValuesRe.FindStringSubmatch(text); m != nil && strings.Join(list(m[1]), ",") != strings.Join(vals, ",") && !strings.Contains(strings.Join(vals, ","), ", ") {
 			return fmt.Sprintf("the value table %v is not the list of exported values %v", list(m[1]), vals)
 		}
